@@ -31,13 +31,18 @@ Inductive val :=
 | VList (l : list val)       (* numpy array / Python list *)
 | VUndef                     (* KLONG_UNDEFINED *)
 | VRef (l : nat)             (* a dictionary object (heap location) *)
-| VFn (id : Z).              (* a function object, opaque *)
+| VFn (id : Z)               (* a function object, opaque *)
+| VInf (neg : bool)          (* +inf / -inf *)
+| VNan (oid : Z)
+| VDLit (elems : list val).  (* inside the elements of a literal only: a nested dictionary literal  :{...}  written as a payload *)            (* a NaN float OBJECT: Python dictionaries find a NaN key only by object identity,
+                                and every evaluation of a Klong expression yields a new object (oid) *)
 
 (* facts about the source read by the translator (Generated.v) *)
 Record flags := mkFlags {
   sym_guard : bool;    (* KGSym.__eq__ = isinstance(o,KGSym) and same text; hash = str hash *)
   char_guard : bool;   (* KGChar.__eq__ refuses a KGSym (both KGChar classes) *)
-  lit_copy : bool      (* a dictionary literal is deep-copied at every evaluation *)
+  lit_copy : bool;     (* a dictionary literal is deep-copied at every evaluation *)
+  lit_nested : bool    (* ... and the copy turns a literal nested as a payload into a dictionary of its own *)
 }.
 
 (* ------------------------------------------------------------------ keys *)
@@ -58,7 +63,9 @@ Inductive key :=
 | KTxt (s : list Z)          (* 0ca = "a" : KGChar is a str *)
 | KSym (s : list Z)
 | KUndef
-| KFn (id : Z).
+| KFn (id : Z)
+| KInf (neg : bool)
+| KNan (oid : Z).
 
 Definition norm (v : val) : option key :=
   match v with
@@ -69,7 +76,9 @@ Definition norm (v : val) : option key :=
   | VSym s => Some (KSym s)
   | VUndef => Some KUndef
   | VFn i => Some (KFn i)
-  | VList _ | VRef _ => None
+  | VInf b => Some (KInf b)
+  | VNan i => Some (KNan i)
+  | VList _ | VRef _ | VDLit _ => None
   end.
 
 Fixpoint zs_eqb (a b : list Z) : bool :=
@@ -86,14 +95,16 @@ Definition key_eqb (a b : key) : bool :=
   | KSym s, KSym s' => zs_eqb s s'
   | KUndef, KUndef => true
   | KFn i, KFn j => Z.eqb i j
+  | KInf a, KInf b => Bool.eqb a b
+  | KNan i, KNan j => Z.eqb i j
   | _, _ => false
   end.
 
 Definition hashable (v : val) : bool :=
-  match v with VList _ | VRef _ => false | _ => true end.
+  match v with VList _ | VRef _ | VDLit _ => false | _ => true end.
 
-Definition is_num (v : val) : bool := match v with VInt _ | VReal _ _ => true | _ => false end.
-Definition is_real (v : val) : bool := match v with VReal _ _ => true | _ => false end.
+Definition is_num (v : val) : bool := match v with VInt _ | VReal _ _ | VInf _ | VNan _ => true | _ => false end.
+Definition is_real (v : val) : bool := match v with VReal _ _ | VInf _ | VNan _ => true | _ => false end.
 
 Definition text_of (v : val) : option (list Z) :=
   match v with VChar c => Some [c] | VStr s => Some s | VSym s => Some s | _ => None end.
@@ -111,7 +122,8 @@ Definition num_eqb (a b : val) : bool :=
      and a KGSym on the right Python uses KGChar's __eq__ (str.__eq__ unless overridden) *)
 Definition keq (f : flags) (stored probe : val) : bool :=
   match stored, probe with
-  | VInt _, (VInt _ | VReal _ _) | VReal _ _, (VInt _ | VReal _ _) => num_eqb stored probe
+  | (VInt _ | VReal _ _ | VInf _), (VInt _ | VReal _ _ | VInf _) => num_eqb stored probe
+  | VNan i, VNan j => Z.eqb i j              (* identity: NaN == NaN is false *)
   | VSym s, VSym t => zs_eqb s t
   | VSym _, (VChar _ | VStr _) => if sym_guard f then false else text_eqb stored probe
   | VStr _, VSym _ => if sym_guard f then false else text_eqb stored probe
@@ -146,8 +158,21 @@ Fixpoint d_del (f : flags) (d : dict) (k : val) : dict :=
 
 (* numeric homogenisation of kg_asarray on a flat list of scalars: ints become reals
    as soon as one real is present (exact for |z| < 2^53) *)
+(* int -> binary64, round to nearest even when the integer needs more than 53 bits *)
+Definition round53 (z : Z) : Z * Z :=
+  let a := Z.abs z in
+  let bits := Z.log2 a + 1 in
+  if bits <=? 53 then (z, 0)
+  else
+    let s := bits - 53 in
+    let q := Z.shiftr a s in
+    let r := a - Z.shiftl q s in
+    let half := Z.shiftl 1 (s - 1) in
+    let q' := if (half <? r) || ((half =? r) && Z.odd q) then q + 1 else q in
+    (Z.sgn z * q', s).
+
 Definition to_real (v : val) : val :=
-  match v with VInt z => let '(m, e) := dy_norm z 0 in VReal m e | _ => v end.
+  match v with VInt z => let '(m0, e0) := round53 z in let '(m, e) := dy_norm m0 e0 in VReal m e | _ => v end.
 
 Definition homog (l : list val) : list val :=
   if forallb is_num l && existsb is_real l then map to_real l else l.
@@ -234,8 +259,9 @@ Inductive res (X : Type) :=
 | RVal (v : val)
 | RErr                       (* a Python exception; state unchanged *)
 | RBad                       (* outside the model: unbound name / non-dictionary operand *)
-| RVisits (l : list X).
-Arguments RVal {X}. Arguments RErr {X}. Arguments RBad {X}. Arguments RVisits {X}.
+| RVisits (l : list X)
+| RVisitsErr (l : list X).   (* Each aborted by an exception after these visits *)
+Arguments RVal {X}. Arguments RErr {X}. Arguments RBad {X}. Arguments RVisits {X}. Arguments RVisitsErr {X}.
 
 Section Step.
   Context {D X : Type} (I : dict_impl D X) (f : flags).
@@ -272,19 +298,51 @@ Section Step.
         end
     end.
 
+  (* a literal written as the payload of an entry of a literal (one level): the copy builds it, inner first,
+     into a fresh dictionary of its own; None when it does not parse *)
+  Fixpoint expand (h : list D) (elems : list val) : option (list D * list val) :=
+    match elems with
+    | [] => Some (h, [])
+    | e :: r =>
+        match e with
+        | VList (k :: VDLit es :: rest) =>
+            match build (di_empty I) es with
+            | Some d =>
+                match expand (h ++ [d]) r with
+                | Some (h', r') => Some (h', VList (k :: VRef (length h) :: rest) :: r')
+                | None => None
+                end
+            | None => None
+            end
+        | _ => match expand h r with Some (h', r') => Some (h', e :: r') | None => None end
+        end
+    end.
+
+  (* does the literal parse (list_to_dict of the literal and of the literals nested in it)? *)
+  Definition lit_parses (elems : list val) : bool :=
+    match expand [] elems with
+    | Some (_, es) => match build (di_empty I) es with Some _ => true | None => false end
+    | None => false
+    end.
+
   (* evaluation of the KGCall(copy_lambda, d) a literal was parsed into *)
   Definition eval_lit (st : state D) (site : Z) (elems : list val) : option (state D * nat) :=
-    match build (di_empty I) elems with
+    if negb (lit_parses elems) then None else
+    match (if lit_copy f && lit_nested f then expand (heap st) elems else Some (heap st, elems)) with
+    | None => None
+    | Some (h1, elems1) =>
+    match build (di_empty I) elems1 with
     | None => None
     | Some d =>
         if lit_copy f then
-          Some (mkState (heap st ++ [d]) (env st) (fdefs st) (shared st), length (heap st))
+          Some (mkState (h1 ++ [d]) (env st) (fdefs st) (shared st), length h1)
         else
           match lookup (shared st) site with
           | Some l => Some (st, l)
           | None => Some (mkState (heap st ++ [d]) (env st) (fdefs st) ((site, length (heap st)) :: shared st),
                           length (heap st))
           end
+    end
     end.
 
   Definition bind (st : state D) (n : Z) (v : val) : state D :=
@@ -325,10 +383,9 @@ Section Step.
         | None => (st, RErr)
         end
     | ODefFn fn site elems =>
-        match build (di_empty I) elems with
-        | Some _ => (mkState (heap st) ((fn, VFn site) :: env st) ((site, elems) :: fdefs st) (shared st), RVal (VFn site))
-        | None => (st, RErr)
-        end
+        if lit_parses elems
+        then (mkState (heap st) ((fn, VFn site) :: env st) ((site, elems) :: fdefs st) (shared st), RVal (VFn site))
+        else (st, RErr)
     | OCall n fn =>
         match lookup (env st) fn with
         | Some (VFn site) =>
@@ -443,6 +500,52 @@ Section Step.
         let '(st1, x) := step o st in
         let '(st2, xs) := run r st1 in
         (st2, x :: xs)
+    end.
+
+  (* f'd where f, besides being handed the tuple, performs operation o (it may update d itself).
+     CPython's dictionary iterator: before every item it raises RuntimeError when the size differs from the
+     size at the start; an overwrite keeps size and positions, so iteration goes on over the live contents.
+     An exception raised by o aborts Each. *)
+  Fixpoint each_do (fuel i n0 l : nat) (o : op) (st : state D) (acc : list X) : state D * res X :=
+    match fuel with
+    | O => (st, RErr)
+    | S fu =>
+        match nth_error (heap st) l with
+        | None => (st, RBad)
+        | Some d =>
+            if negb (Nat.eqb (di_size I d) n0) then (st, RVisitsErr (rev acc))
+            else
+              match nth_error (di_visits I d) i with
+              | None => (st, RVisits (rev acc))
+              | Some x =>
+                  match step o st with
+                  | (st1, RErr) => (st1, RVisitsErr (rev (x :: acc)))
+                  | (st1, _) => each_do fu (S i) n0 l o st1 (x :: acc)
+                  end
+              end
+        end
+    end.
+
+  Definition step_each_do (da : arg) (o : op) (st : state D) : state D * res X :=
+    match eval_arg (env st) da with
+    | Some (VRef l) =>
+        match nth_error (heap st) l with
+        | Some d => each_do (S (S (di_size I d))) 0 (di_size I d) l o st []
+        | None => (st, RBad)
+        end
+    | _ => (st, RBad)
+    end.
+
+  (* an operation of a script: a plain one, or Each with a mutating f *)
+  Inductive xop := XOp (o : op) | XEachDo (d : arg) (o : op).
+
+  Definition xstep (x : xop) (st : state D) : state D * res X :=
+    match x with XOp o => step o st | XEachDo d o => step_each_do d o st end.
+
+  Fixpoint xtrace (ops : list xop) (st : state D) : list (res X * list D) :=
+    match ops with
+    | [] => []
+    | o :: r => let '(st1, x) := xstep o st in (x, heap st1) :: xtrace r st1
     end.
 
   (* results together with the heap after every step (what the harness compares) *)
